@@ -126,6 +126,15 @@ static int roundtrip(econf_file *kf, char d, char c, const char *sig)
     const struct file_entry *fe = &kf->file_entry[i];
     if (fe->value && strchr(fe->value, '\n') && fe->comment_after_value && *fe->comment_after_value) { w_free(&a); sb_free(&err); return 0; }
   }
+  /* the trailing comments of a MULTI-line entry are written behind its last line and on lines of their own; read back, those
+   * lines are comment lines in front of the next entry. The statement covers the comments of single-line entries only and says
+   * nothing about where a multi-line entry's comments end up, so in an object with such an entry the comments are not compared
+   * (sections, keys and values still are). */
+  int ml_tc = 0;
+  for (size_t i = 0; i < kf->length; i++) {
+    const struct file_entry *fe = &kf->file_entry[i];
+    if (fe->value && strchr(fe->value, '\n') && fe->comment_after_value) for (const char *q = fe->comment_after_value; *q; q++) if (*q != '\n') ml_tc = 1;
+  }
   econf_set_delimiter_tag(kf, d); econf_set_comment_tag(kf, c);
   econf_err rc = econf_writeFile(kf, mc_work, "rt.conf");
   mc_st->libcalls++;
@@ -149,7 +158,7 @@ static int roundtrip(econf_file *kf, char d, char c, const char *sig)
       for (int j = 0; j < b.n; j++) if (streqn(b.e[j].g, a.e[i].g)) { if (r == rank) { m = &b.e[j]; break; } r++; }
       if (!m || strcmp(m->k, a.e[i].k)) { bad = 1; why = "keys of a section"; }
       else if (!lines_equal(a.e[i].v, m->v)) { bad = 1; why = "value"; }
-      else if (a.e[i].nlines == 1 && (!streq0(a.e[i].cb, m->cb) || !streq0(a.e[i].ca, m->ca))) { bad = 1; why = "comment of a single-line entry"; }
+      else if (!ml_tc && a.e[i].nlines == 1 && (!streq0(a.e[i].cb, m->cb) || !streq0(a.e[i].ca, m->ca))) { bad = 1; why = "comment of a single-line entry"; }
     }
     if (bad) {
       sbuf pa = {0}, pb = {0};
